@@ -14,6 +14,11 @@ CLAIMS = {
    design_ref="7.17",
    note=BASE_NOTE + "Modelled not verified: Python str/bytes slicing and concatenation; channel.receive() delivering items in order then EOFError (that is C02/C03). read(n<0) is outside the statement.",
    technique="Coq refinement proof (channel file refines file-over-concatenation) + extracted-model differential correspondence"),
+ "C20": dict(
+   text="Theorems (Coq, unbounded): (1) every specification text built from unique well-formed keys and values parses to exactly those attributes (True for bare keys, env: keys in env, None for absent names), for all key/value lists over all code points; a repeated key of either kind gives ValueError. (2) For any number of concurrent makegateway/exit calls under every interleaving of their micro-steps, registered ids are pairwise distinct and automatically allocated ids are pairwise distinct; lookup by id / index / membership agree on such a group. Tied to the code by regenerated facts (duplicate test covers env keys; counter read+increment under the lock; membership test and append under one lock), by a differential run of the extracted parser model against the real XSpec, and by trace inclusion of real Group.makegateway runs (stub gateways) under a deterministic scheduler with line-level preemption into the terminal states of the id model.",
+   design_ref="7.20",
+   note=BASE_NOTE + "Modelled not verified: Python str.split/find/slicing, dict order; assert statements effective (no -O); gateway creation stubbed in the id part (process handling is C05). Boundary: a non-final piece ending in '/' makes the text ambiguous (C20_ambiguous_example). Open finding: key 'env' is rejected.",
+   technique="Coq proofs (parser round-trip by induction; LTS invariant over all interleavings) + extracted-model differential + scheduler-driven trace inclusion"),
 }
 
 REASON_TODO = "not claimed yet: model and theorems for this property are not built yet in this development (see DESIGN.md section 12 build order)"
